@@ -554,6 +554,103 @@ def run(ctx: Ctx):
         return isinstance(e, ast.Name) and e.id == "end_minutes"
 
     from ..order import eval_points
+    if _working_hours_by_table(ctx, wh):
+        pass          # decided from the function's ordering table; the pattern form below is the fall-back
+    else:
+        _working_hours_by_pattern(ctx, wh, m, s_, e_, eval_points)
+    _after_working_hours(ctx, repo, wh, dflt)
+
+
+def _working_hours_by_table(ctx, wh) -> bool:
+    """WorkingHours.onShift (Python path, custom hours): its complete decision table over
+         - every weak ordering of (slot minute m, interval start s, interval end e)   [27 assignments from a 3-element set],
+         - which of today's / yesterday's entries exist (missing, empty, one interval, a non-matching interval first),
+         - the weekday (Monday, whose yesterday wraps to Sunday, and a mid-week day)
+       compared with:  on shift  iff  today has an interval with (s < e and s <= m < e) or (e <= s and m >= s),
+                                  or yesterday has an interval with e <= s and m < e.
+       The code touches m, s, e through comparisons only (the evaluator refuses anything else), so the orderings are exhaustive."""
+    from ..minieval import Interp, Model, Unknown
+
+    class DT(Model):
+        def __init__(self, wd, minute_of_day):
+            self.hour, self.minute, self._wd = minute_of_day // 60, minute_of_day % 60, wd
+
+        def weekday(self):
+            return self._wd
+    if len(wh.params) < 2:
+        return False
+    slot = wh.params[1]
+    tz = wh.params[2] if len(wh.params) > 2 else None
+
+    def iv(s, e):
+        return ((s // 60, s % 60), (e // 60, e % 60))
+
+    def same(s, e, m):
+        return (s < e and s <= m < e) or (e <= s and m >= s)
+
+    def prev(s, e, m):
+        return e <= s and m < e
+    V = (300, 600, 900)
+    NOISE = iv(0, 1)                 # a plain interval that contains none of the minutes used
+    bad = {"cross": [], "normal": [], "shape": [], "prev": [], "no early return": [], "prev iter": []}
+    n_cases = 0
+    try:
+        for wd in (0, 3):
+            yd = (wd - 1) % 7
+            for s in V:
+                for e in V:
+                    for m in V:
+                        scen = [
+                            ("cross" if e <= s else "normal", {wd: [iv(s, e)]}, same(s, e, m)),
+                            ("shape", {wd: [NOISE, iv(s, e)]}, same(s, e, m)),
+                            ("prev", {yd: [iv(s, e)], wd: [NOISE]}, prev(s, e, m)),
+                            ("no early return", {yd: [iv(s, e)]}, prev(s, e, m)),
+                            ("no early return", {yd: [iv(s, e)], wd: []}, prev(s, e, m)),
+                            ("prev iter", {yd: [NOISE, iv(s, e)], (wd + 1) % 7: [iv(900, 300)], (wd - 2) % 7: [iv(900, 300)]}, prev(s, e, m)),
+                        ]
+                        for what, hours, want in scen:
+                            env = {"self._hours": hours, "self._custom_hours_set": True, "_USE_CYTHON": False, slot: 7}
+                            if tz:
+                                env[tz] = None
+                            it = Interp(env, calls={"self.project.idxToDate": lambda idx, wd=wd, m=m: DT(wd, m)})
+                            got = bool(it.result(wh.node.body))
+                            n_cases += 1
+                            if got != want:
+                                bad[what].append((wd, s, e, m, got))
+            it = Interp({"self._hours": {}, "self._custom_hours_set": True, "_USE_CYTHON": False, slot: 7, **({tz: None} if tz else {})},
+                        calls={"self.project.idxToDate": lambda idx: DT(0, 600)})
+            if it.result(wh.node.body):
+                bad["shape"].append(("no hours at all", True))
+    except Unknown as u:
+        ctx.stats["working_hours_table"] = f"not applicable: {u}"
+        return False
+    ctx.stats["working_hours_table_cases"] = n_cases
+
+    def ex(k):
+        return f" (weekday, start, end, minute, answer: {bad[k][0]})" if bad[k] else ""
+    ctx.ob("R02.5", f"{wh.qual}: ordering table, intervals that cross midnight (end <= start)", wh, not bad["cross"],
+           "same-day part of a wrapping shift: on shift iff m >= start" if not bad["cross"] else
+           "a shift with end <= start is not answered by (m >= start) on its own day" + ex("cross"), key="R02.5|WorkingHours.onShift|cross")
+    ctx.ob("R02.5", f"{wh.qual}: ordering table, plain intervals (start < end)", wh, not bad["normal"],
+           "on shift iff start <= m < end" if not bad["normal"] else "plain-interval answer is not start <= m < end" + ex("normal"),
+           key="R02.5|WorkingHours.onShift|normal")
+    ctx.ob("R02.5", f"{wh.qual}: ordering table, every interval of the day is examined", wh, not bad["shape"],
+           "an interval that does not contain the minute does not end the search" if not bad["shape"] else
+           "the same-day loop no longer answers True from one wrapping test and one plain test" + ex("shape"), key="R02.5|WorkingHours.onShift|shape")
+    ctx.ob("R02.5", f"{wh.qual}: ordering table, yesterday's spill-over", wh, not bad["prev"],
+           "early-morning part of yesterday's wrapping shift: end <= start and m < end" if not bad["prev"] else
+           "previous-day spill-over is not (end <= start and m < end)" + ex("prev"), key="R02.5|WorkingHours.onShift|prev")
+    ctx.ob("R02.5", f"{wh.qual}: ordering table, days without hours of their own", wh, not bad["no early return"],
+           "yesterday's cross-midnight shift is examined whether or not today has hours" if not bad["no early return"] else
+           "a weekday without hours of its own returns False before yesterday's cross-midnight shift is examined: the morning tail of "
+           "Friday's night shift is lost on Saturday" + ex("no early return"), key="R02.5|WorkingHours.onShift|no early return")
+    ctx.ob("R02.5", f"{wh.qual}: ordering table, which day's hours spill over", wh, not bad["prev iter"],
+           "hours of the previous weekday ((weekday - 1) mod 7, Monday -> Sunday) and of no other day" if not bad["prev iter"] else
+           "spill-over does not come from the previous weekday's hours" + ex("prev iter"), key="R02.5|WorkingHours.onShift|prev iter")
+    return True
+
+
+def _working_hours_by_pattern(ctx, wh, m, s_, e_, eval_points):
     loops = [l for l in own_nodes(wh) if isinstance(l, ast.For) and ("self._hours[" in norm(l.iter) or "self._hours.get(" in norm(l.iter))]
     if len(loops) != 2:
         raise AnchorMissing(f"WorkingHours.onShift: {len(loops)} interval loops, expected 2 (same day, previous day)")
@@ -629,6 +726,9 @@ def run(ctx: Ctx):
            "previous weekday = (weekday - 1) mod 7" if ok else "previous weekday is not (weekday - 1) mod 7",
            key="R02.5|WorkingHours.onShift|prev_weekday")
 
+
+def _after_working_hours(ctx, repo, wh, dflt):
+    onshift = repo.func("ResourceScenario.onShift")
     # ---------------------------------------------------------------- R02.6
     fdw = ctx.dep.of(wh)
     for n in own_nodes(wh):
